@@ -22,7 +22,7 @@ import os, time
 # Every scenario gets its own block of ports, taken from one running counter: a service started by `wire start` stays
 # bound for the life of the harness process, so no later scenario may come near its ports. The whole stage stays inside
 # 26000..32700, below the kernel's ephemeral range; the stage's region depends on the process and the time.
-SIZES = {"quick": {"c07": 6 * 12 + 2 * 12 + 2 * 14, "c08": 2 * 8, "c15": 32}, "thorough": {"c07": 60 * 12 + 20 * 12 + 20 * 14, "c08": 30 * 8, "c15": 4 * 16}}
+SIZES = {"quick": {"c07": 6 * 12 + 2 * 12 + 2 * 14 + 2 * 8, "c08": 2 * 8, "c15": 32}, "thorough": {"c07": 60 * 12 + 20 * 12 + 20 * 14 + 20 * 8, "c08": 30 * 8, "c15": 4 * 16}}
 _next = [26000, 32700]
 
 def region(tier, focus):
@@ -153,6 +153,38 @@ def gen_c07_outbound(g, lines, k):
     g.count("wire_c07_outbound_%s" % ("rcvd" if rcvd else "norcvd"))
     lines.append("wire end")
 
+def gen_c02_closed(g, lines, k):
+    """a request arrives on a TCP connection, the sender closes that connection, then the response comes: the next Via
+    entry says TCP, so the response is sent over TCP to that entry's address (received, sent-by port) - on a new
+    connection, since the old one is gone. k odd: the connection stays open and carries the response."""
+    base = take(8)
+    lip, P, T, BP, VP, LP = "127.0.0.1", base, base + 1, base + 2, base + 3, base + 4
+    be = "127.0.1.1:%d" % BP
+    back = "127.0.2.1:%d" % VP                 # where the response must arrive: true source address, sent-by port
+    lines.append("wire start %s" % hx(yaml_cfg("svc.test", lip, P, T, None, ["udp://" + be])))
+    lines.append("wire bind %s" % hx(be))
+    lines.append("wire listen %s" % hx(back))
+    v = Via("TCP", "127.0.2.9", VP, [("branch", "z9hG4bK" + g.word(ALNUM.upper(), 6, 9))])
+    call = g.word(ALNUM, 8, 12)
+    req = msg("OPTIONS sip:svc.test SIP/2.0", [("Via", v.text()), ("From", "<sip:a@ua.test>;tag=1"), ("To", "<sip:b@svc.test>"), ("Call-ID", call), ("CSeq", "1 OPTIONS")])
+    lines.append("wire tcpconnect 7 %s %s" % (hx("%s:%d" % (lip, T)), hx("127.0.2.1:%d" % LP)))
+    lines.append("wire tcpsend 7 %s" % hx(req))
+    own = "SIP/2.0/UDP %s:%d;branch=%s" % (lip, P, BR)
+    exp_v = v.stamped("127.0.2.1", LP)
+    lines.append("wire recv %s 1500 msg=%s # spec=C02 dest U %s" % (hx(be), hx(req), hx(be)))
+    resp = msg("SIP/2.0 200 OK", [("Via", own), ("Via", exp_v.text()), ("From", "<sip:a@ua.test>;tag=1"), ("To", "<sip:b@svc.test>;tag=2"), ("Call-ID", call), ("CSeq", "1 OPTIONS")])
+    if k % 2 == 0:
+        lines.append("wire tcpclose 7")
+        lines.append("wire sleep 300")
+        lines.append("wire udp %s %s %s" % (hx(be), hx("%s:%d" % (lip, P)), hx(resp)))
+        lines.append("wire accepted %s 2500 msg=%s # spec=C02 dest T %s # spec=C02 vias %s" % (hx(back), hx(resp), hx(back), hxs([exp_v.text()])))
+        g.count("wire_c02_response_after_sender_closed")
+    else:
+        lines.append("wire udp %s %s %s" % (hx(be), hx("%s:%d" % (lip, P)), hx(resp)))
+        lines.append("wire tcprecv 7 1500 msg=%s # spec=C12 dest C 7 # spec=C02 vias %s" % (hx(resp), hxs([exp_v.text()])))
+        g.count("wire_c02_response_on_open_connection")
+    lines.append("wire end")
+
 def gen_c08(g, lines, k):
     """hostile field values against the REAL service (real UDP/TCP transports, real client-transport selection): after each
     batch a well-formed request must still be relayed"""
@@ -280,4 +312,5 @@ def generate(seed, tier, focus="c07"):
             if k < (2 if tier == "quick" else 20):
                 gen_c07_outbound(g, lines, k)
                 gen_c07_two(g, lines, k)
+                gen_c02_closed(g, lines, k)
     return lines, g.stats
